@@ -230,6 +230,15 @@ pub fn shim_chacha20_seek(c: &mut chacha20::ChaCha20, pos: u32)
     c.seek(pos)
 }
 
+/// R2 shim for `x.to_le_bytes()` on u64: the 8 little-endian bytes of x
+#[verifier::external_body]
+pub fn shim_u64_to_le_bytes(x: u64) -> (r: [u8; 8])
+    ensures
+        r@ == crate::verif_spec::nat_to_le(x as nat, 8),
+{
+    x.to_le_bytes()
+}
+
 /// R2 shim for `x.to_le_bytes()` on usize (64-bit target): the 8 little-endian bytes of x
 #[verifier::external_body]
 pub fn shim_usize_to_le_bytes(x: usize) -> (r: [u8; 8])
